@@ -38,7 +38,10 @@ def shuffle_case(case, ctx):
     X = gen.encode_batch(seqs, alpha, gen.DTYPES[case.get("dtype", "int8")])
     Xc = X.clone()
     n, seed = case["n"], case["seed"]
-    seed = {"int": int, "np_int64": numpy.int64, "np_int32": numpy.int32}[case.get("seed_type", "int")](seed)
+    stype = case.get("seed_type", "int")
+    if stype == "np_int32" and seed >= 2 ** 31:
+        stype = "np_int64"
+    seed = {"int": int, "np_int64": numpy.int64, "np_int32": numpy.int32}[stype](seed)
     kind = case["kind"]
     kw = {}
     if case["start"] is not None:
@@ -46,13 +49,26 @@ def shuffle_case(case, ctx):
     if case["end"] is not None:
         kw["end"] = case["end"]
     a = case["start"] if case["start"] is not None else 0
+    e_ = case["end"]
+    # a negative end counts from the end of the sequence: shuffle documents L + 1 + end; dinucleotide_shuffle slices Python-style
+    # (L + end).  [a, L + 1 + end) contains both readings, and a dinucleotide shuffle of the shorter one is one of the longer one too.
+    b_neg = None if (e_ is None or e_ >= 0) else L + 1 + e_
+    if case.get("pre_failing_call") and kind == "dinuc" and n >= 2:
+        # an earlier call on a batch of the same shape that the function refuses ("all shuffles identical") and the caller catches
+        Xh = gen.encode_batch(["A" * L for _ in seqs], alpha, X.dtype)
+        Xh[:, :, -1] = 0
+        Xh[:, 1, -1] = 1
+        try:
+            dinucleotide_shuffle(Xh, n=n, random_state=seed, **kw)
+        except Exception:  # noqa: BLE001
+            ctx.label("after_refused_call_of_same_shape")
     if kind == "shuffle":
-        b = case["end"] if case["end"] is not None else L
+        b = (e_ if e_ >= 0 else b_neg) if e_ is not None else L
         Y = sut(shuffle, X, n=n, random_state=seed, **kw)
         Y2 = sut(shuffle, X, n=n, random_state=seed, **kw)
     else:
         # default end=-1: only [a, L) is constrained (holds for either reading of -1)
-        b = case["end"] if case["end"] is not None else L
+        b = (e_ if e_ >= 0 else b_neg) if e_ is not None else L
         try:
             Y = dinucleotide_shuffle(X, n=n, random_state=seed, **kw)
             Y2 = dinucleotide_shuffle(X, n=n, random_state=seed, **kw)
@@ -60,7 +76,7 @@ def shuffle_case(case, ctx):
             require(torch.equal(X, Xc), kind + "-input-modified", "input changed by a failing call")
             # a single shuffle (n == 1) of a valid region of >= 3 positions always exists (the input itself is one): the only
             # documented refusals are "all n > 1 shuffles identical" and invalid input, so a refusal here is a wrong rejection
-            sut_len = (b - a) if case["end"] is not None else (L - 1 - a)      # the default end=-1 is sliced Python-style
+            sut_len = (b - a) if (case["end"] is not None and case["end"] >= 0) else (b - 1 - a)   # negative ends are sliced Python-style
             if n == 1 and sut_len >= 3:
                 raise Violation("dinuc-valid-region-rejected", "seqs=%r region=[%d,%d) end arg=%r: %s: %s" % (
                     [s_[:40] for s_ in seqs], a, b, case["end"], type(e).__name__, str(e)[:200]))
@@ -105,6 +121,8 @@ def _strategy(kind, maxL):
             end = draw(st.integers(start + minlen, L))
             if draw(st.integers(0, 4)) == 0:
                 end = None
+            elif draw(st.integers(0, 5)) == 0 and end < L:
+                end = end - L - 1          # the same region written as a negative end (L + 1 + end convention of shuffle)
         n = draw(st.integers(1, 5))
         if kind == "dinuc":
             a_, b_ = (start or 0), (end if end is not None else L - 1)
@@ -113,7 +131,9 @@ def _strategy(kind, maxL):
                 n = 1
         return {"A": A, "seqs": seqs, "kind": kind, "start": start, "end": end, "n": n,
                 "seed_type": draw(st.sampled_from(["int", "int", "np_int64", "np_int32"])),
-                "seed": draw(st.integers(0, 2 ** 31 - 10)), "dtype": draw(st.sampled_from(["int8", "float32", "int64"]))}
+                "seed": draw(st.one_of(st.integers(0, 2 ** 31 - 10), st.integers(2 ** 31 - 2, 2 ** 32 - 10))),   # the whole numpy seed range
+                "dtype": draw(st.sampled_from(["int8", "float32", "int64"])),
+                "pre_failing_call": draw(st.integers(0, 2)) == 0}
     return f()
 
 
